@@ -66,6 +66,33 @@ def contains_pred(t, cond):
     return None
 
 
+class GuardUnknown(Exception):
+    pass
+
+
+def interpreted_literal(f, wname, esc):
+    """s -> the text write_string_quoted appends for s, by interpreting its body with escape_string replaced by the (already
+    characterised) escape function; raises Anchor outside the interpreter's fragment"""
+    from ..interp import Interp, Opaque, Unsupported, Diverged
+    fn = f.fn(wname)
+    buf = fn["params"][-1]["pat"].get("name")
+    cache = {}
+
+    def lit(s):
+        if s in cache:
+            return cache[s]
+        it = Interp(f)
+        it.free_opaque = True
+        it.builtins = {EB + "::escape_string": lambda it_, a: esc(a[-1])}
+        try:
+            it.call_fn(wname, [Opaque("self"), s, ""])
+        except (Unsupported, Diverged) as e:
+            raise Anchor("write_string_quoted outside the interpreter's fragment: %s" % e)
+        cache[s] = "".join(t for r, t in it.out if r == buf)
+        return cache[s]
+    return lit
+
+
 def frames_of(run, f, cfg, adt, dialect):
     """[(predicate or None, prefix, suffix)] of write_string_quoted for this backend"""
     name = resolve(f, QB, adt, "write_string_quoted")
@@ -112,10 +139,7 @@ def frames_of(run, f, cfg, adt, dialect):
                 elif local == pn[1]:
                     pred = ("raw-contains", ch, pol == g["taken"])
             if pred is None:
-                run.ob("C03.R2", "%s:prefix-guard" % dialect, False,
-                       "%s write_string_quoted chooses between literal forms by a condition the checker cannot relate to the presence of a character in the escaped text: `%s`" % (dialect, g.get("text")),
-                       sp=fn["sp"], cfg=cfg)
-                return None, name
+                raise GuardUnknown("%s write_string_quoted chooses between literal forms by a condition the checker cannot relate to the presence of a character in the escaped text: `%s`" % (dialect, g.get("text")))
             preds.append(pred)
         if len(set(preds)) != 1:
             raise Anchor("write_string_quoted of %s: several different conditions select one literal form" % dialect)
@@ -173,13 +197,24 @@ def check_escape(run, f, cfg, adt, dialect):
     run.ob("C03.R1", "%s:homomorphism" % dialect, hom,
            "%s: escape_string is one simultaneous per-character substitution%s" % (dialect, "" if hom else " - NOT: " + why),
            sp=f.fn(esc_name)["sp"], cfg=cfg, detail=chain)
+    lit_fn = None
+    esc_fn = apply_fn if apply_fn is not None else (lambda s_, chain=chain: S.apply_chain(chain, s_))
     try:
         frames, wname = frames_of(run, f, cfg, adt, dialect)
-    except Anchor as e:
-        run.anchor("C03.R1", "%s:frames" % dialect, str(e), cfg)
-        return
-    if frames is None:
-        return
+    except (Anchor, GuardUnknown) as e:
+        # not `literal prefix + escape_string(arg) + literal suffix` under a recognisable guard: interpret the function
+        wname = resolve(f, QB, adt, "write_string_quoted")
+        frames = []
+        lit_fn = interpreted_literal(f, wname, esc_fn)
+        try:
+            lit_fn("a")
+        except Anchor as e2:
+            if isinstance(e, GuardUnknown):
+                run.ob("C03.R2", "%s:prefix-guard" % dialect, False, str(e), sp=f.fn(wname)["sp"], cfg=cfg)
+            else:
+                run.anchor("C03.R1", "%s:frames" % dialect, "%s; %s" % (e, e2), cfg)
+            return
+        run.notes.append("%s: write_string_quoted decided by interpretation (%s)" % (dialect, e))
     for pred, prefix, suffix, ok_inner, esc_callee in frames:
         run.ob("C03.R1", "%s:frame:%s" % (dialect, prefix), ok_inner,
                "%s: the text between %r and %r is escape_string applied to the function's own string argument" % (dialect, prefix, suffix),
@@ -205,13 +240,24 @@ def check_escape(run, f, cfg, adt, dialect):
     bad_chars = {}
     bad_longer = []
     n = 0
-    for ln in (1, 2, 3):
-        for tup in product(alphabet, repeat=ln):
+    if lit_fn is not None:
+        # interpreted: all pairs, triples over one member of every class
+        mapped = [a for a, _ in chain]
+        hot = sorted(set(mapped[:3] + [c for c in ("\\", "'") if c in alphabet] + ["a", "\u00e9"]))
+        words = [(c,) for c in alphabet] + list(product(alphabet, repeat=2)) + list(product(hot, repeat=3))
+    else:
+        words = [tup for ln in (1, 2, 3) for tup in product(alphabet, repeat=ln)]
+    missing_e = []
+    if True:
+        for tup in words:
+            ln = len(tup)
             s = "".join(tup)
             if ln > 1 and any(c in bad_chars for c in s):
                 continue   # already reported at the character level
             n += 1
-            lit = literal_for(frames, apply_fn or chain, s)
+            lit = lit_fn(s) if lit_fn is not None else literal_for(frames, apply_fn or chain, s)
+            if lit_fn is not None and "estring" in sp and "\\" in esc_fn(s) and not lit.startswith(sp["estring"]["prefix"]):
+                missing_e.append(s)
             try:
                 if lit is None:
                     raise L.LexError("no literal form selected")
@@ -233,7 +279,7 @@ def check_escape(run, f, cfg, adt, dialect):
                    "%s: the character U+%04X is written as %s, which the %s lexer %s" % (dialect, ord(c), lit, dialect, why), sp=f.fn(esc_name)["sp"], cfg=cfg)
         else:
             run.ob("C03.R1", "%s:char:U+%04X" % (dialect, ord(c)), True,
-                   "%s: %r inlines as %s and decodes back" % (dialect, c, literal_for(frames, apply_fn or chain, c)), sp=f.fn(esc_name)["sp"], cfg=cfg,
+                   "%s: %r inlines as %s and decodes back" % (dialect, c, lit_fn(c) if lit_fn is not None else literal_for(frames, apply_fn or chain, c)), sp=f.fn(esc_name)["sp"], cfg=cfg,
                    trivial=(c not in dict(chain)))
     seen = set()
     for s, lit, why in bad_longer[:20]:
@@ -243,10 +289,42 @@ def check_escape(run, f, cfg, adt, dialect):
         seen.add(key)
         run.ob("C03.R1", "%s:string:%s" % (dialect, key), False, "%s: the string %r is written as %s, which %s" % (dialect, s, lit, why), sp=f.fn(esc_name)["sp"], cfg=cfg)
     run.ob("C03.R1", "%s:strings" % dialect, True, "%s: %d strings of length <= 3 over an alphabet of %d characters decoded with the %s lexer" % (dialect, n, len(alphabet), dialect), cfg=cfg)
+    if lit_fn is not None and "estring" in sp:
+        run.ob("C03.R2", "%s:prefix-guard" % dialect, not missing_e,
+               "%s: whenever the escaped text contains a backslash the literal is written in the E'..' form (%d interpreted strings)%s" % (
+                   dialect, n, "" if not missing_e else " - NOT for %r" % missing_e[:3]), sp=f.fn(wname)["sp"], cfg=cfg)
+
+
+def bytes_by_interp(run, f, cfg, name, dialect, want):
+    """write_bytes interpreted on concrete byte strings (every nibble pattern, lengths 0..3): the text appended to the buffer
+    is the dialect's prefix, two upper-case hex digits per byte in order, the suffix.  True when decided"""
+    from ..interp import Interp, Opaque, Unsupported, Diverged
+    fn = f.fn(name)
+    buf = fn["params"][-1]["pat"].get("name")
+    probes = [[], [0x00], [0x0a], [0xff], [0x7f, 0x80], [0x01, 0x23, 0xab], [0xde, 0xad, 0xbe, 0xef]]
+    bad = []
+    try:
+        for bs in probes:
+            it = Interp(f)
+            it.free_opaque = True
+            it.call_fn(name, [Opaque("self"), list(bs), ""])
+            got = "".join(t for r, t in it.out if r == buf)
+            exp = want["prefix"] + "".join("%02X" % b for b in bs) + want["suffix"]
+            if got != exp:
+                bad.append("%r is written %r, expected %r" % (bs, got, exp))
+    except (Unsupported, Diverged) as e:
+        run.notes.append("C03.R5 %s write_bytes outside the interpreter's fragment (%s): decided by its shape" % (dialect, e))
+        return False
+    run.ob("C03.R5", "%s:write_bytes" % dialect, not bad,
+           "%s: bytes are written as %s + two upper-case hex digits per byte of the argument, in order + %s (interpreted on %d byte strings)%s" % (
+               dialect, want["prefix"], want["suffix"], len(probes), "" if not bad else " - NOT: " + "; ".join(bad[:3])), sp=fn["sp"], cfg=cfg)
+    return True
 
 
 def check_bytes(run, f, cfg, adt, dialect):
     name = resolve(f, QB, adt, "write_bytes")
+    if bytes_by_interp(run, f, cfg, name, dialect, L.spec()[dialect]["bytes"]):
+        return
     t = T.fn_tir(f, name)
     sink = list(t.sinks)[0] if len(t.sinks) == 1 else None
     if sink is None:
